@@ -134,7 +134,33 @@ M = [
  ('C20','shared-cache-ignores-policy',A+'session.go','\tif config.Policy.CacheIntermediateKeys && config.Policy.SharedIntermediateKeyCache {','\tif config.Policy.SharedIntermediateKeyCache {'),
  ('C20','always-reload',A+'key_cache.go','\tif k, ok := c.getFresh(id); ok {\n\t\treturn tracked(k), nil\n\t}\n\n\tk, err := c.load(id, loader)','\tk, err := c.load(id, loader)'),
  ('C20','per-session-sk-cache',A+'session.go','\tskCache := f.systemKeys\n','\tskCache := keyCacher(newKeyCache(CacheTypeSystemKeys, f.Config.Policy))\n'),
- ('C20','nevercache-retains',A+'key_cache.go','type neverCache struct{}','type neverCache struct{ last *cachedCryptoKey }'),
+ # ================= behaviour-preserving variants (must stay silent) =================
+ ('C01','equiv-extra-debug-line',A+'envelope.go','\tdefer ik.Close()\n\n\t// Note the id doesn\'t mean anything for DRK.','\tdefer ik.Close()\n\n\tlog.Debugf("[EncryptPayload] using intermediate key created at %d", ik.Created())\n\n\t// Note the id doesn\'t mean anything for DRK.'),
+ ('C01','equiv-parent-meta-via-local',A+'envelope.go','\treturn &DataRowRecord{\n\t\tKey: &EnvelopeKeyRecord{\n\t\t\tCreated:      drk.Created(),\n\t\t\tEncryptedKey: encBytes,\n\t\t\tParentKeyMeta: &KeyMeta{\n\t\t\t\tCreated: ik.Created(),\n\t\t\t\tID:      e.partition.IntermediateKeyID(),\n\t\t\t},\n\t\t},\n\t\tData: encData,\n\t}, nil','\tparent := &KeyMeta{\n\t\tCreated: ik.Created(),\n\t\tID:      e.partition.IntermediateKeyID(),\n\t}\n\n\treturn &DataRowRecord{\n\t\tKey: &EnvelopeKeyRecord{\n\t\t\tCreated:       drk.Created(),\n\t\t\tEncryptedKey:  encBytes,\n\t\t\tParentKeyMeta: parent,\n\t\t},\n\t\tData: encData,\n\t}, nil'),
+ ('C02','equiv-named-error-var',A+'envelope.go','\tsk, err := e.generateKey()\n\tif err != nil {\n\t\treturn nil, err\n\t}\n\n\tswitch success, err2 := e.tryStoreSystemKey(ctx, sk); {','\tsk, genErr := e.generateKey()\n\tif genErr != nil {\n\t\treturn nil, genErr\n\t}\n\n\tswitch success, err2 := e.tryStoreSystemKey(ctx, sk); {'),
+ ('C03','equiv-nonce-slice-local',A+'pkg/crypto/aead/aead.go','\tinternal.FillRandom(cipherAndNonce[noncePos:])\n\n\taeadCipher.Seal(cipherAndNonce[:0], cipherAndNonce[noncePos:], data, nil)','\tnonce := cipherAndNonce[noncePos:]\n\tinternal.FillRandom(nonce)\n\n\taeadCipher.Seal(cipherAndNonce[:0], nonce, data, nil)'),
+ ('C04','equiv-invalid-local',A+'key_cache.go','\tif c.IsInvalid(key.CryptoKey) {\n\t\treloaded, err := loader(meta)','\tinvalid := c.IsInvalid(key.CryptoKey)\n\tif invalid {\n\t\treloaded, err := loader(meta)'),
+ ('C05','equiv-reorder-refresh',A+'key_cache.go','\t\te.key.SetRevoked(k.Revoked())\n\t\te.loadedAt = time.Now()\n','\t\te.loadedAt = time.Now()\n\t\te.key.SetRevoked(k.Revoked())\n'),
+ ('C05','equiv-same-version-local',A+'key_cache.go','\tswitch {\n\tcase ok && e.key.Created() == k.Created():','\tsameVersion := ok && e.key.Created() == k.Created()\n\n\tswitch {\n\tcase sameVersion:'),
+ ('C06','equiv-valid-local',A+'envelope.go','\tif !e.partition.IsValidIntermediateKeyID(drr.Key.ParentKeyMeta.ID) {\n\t\treturn nil, errors.New("unable to decrypt record")\n\t}','\tif ok := e.partition.IsValidIntermediateKeyID(drr.Key.ParentKeyMeta.ID); !ok {\n\t\treturn nil, errors.New("unable to decrypt record")\n\t}'),
+ ('C07','equiv-combined-nil-check',A+'envelope.go','\tif drr.Key == nil {\n\t\treturn nil, errors.New("datarow key record cannot be empty")\n\t}\n\n\tif drr.Key.ParentKeyMeta == nil {\n\t\treturn nil, errors.New("parent key cannot be empty")\n\t}','\tif drr.Key == nil || drr.Key.ParentKeyMeta == nil {\n\t\treturn nil, errors.New("datarow key record and its parent key cannot be empty")\n\t}'),
+ ('C07','equiv-length-check-geq',A+'pkg/crypto/aead/aead.go','\tif len(data) < aeadCipher.NonceSize() {\n\t\treturn nil, errors.New("data length is shorter than nonce size")\n\t}\n\n\tnoncePos := len(data) - aeadCipher.NonceSize()','\tif !(len(data) >= aeadCipher.NonceSize()) {\n\t\treturn nil, errors.New("data length is shorter than nonce size")\n\t}\n\n\tnoncePos := len(data) - aeadCipher.NonceSize()'),
+ ('C08','equiv-early-return-shape',A+'key_cache.go','\tif ok {\n\t\t// take the caller\'s reference before releasing the lock, otherwise a\n\t\t// concurrent eviction could close the key between lookup and increment\n\t\tk = tracked(k)\n\t}\n\n\tc.rw.RUnlock()\n\n\tif ok {\n\t\treturn k, nil\n\t}','\tif ok {\n\t\t// take the caller\'s reference before releasing the lock, otherwise a\n\t\t// concurrent eviction could close the key between lookup and increment\n\t\tk = tracked(k)\n\t\tc.rw.RUnlock()\n\n\t\treturn k, nil\n\t}\n\n\tc.rw.RUnlock()'),
+ ('C08','equiv-close-eq-zero',A+'key_cache.go','\tif c.refs.Add(-1) > 0 {\n\t\treturn\n\t}','\tif remaining := c.refs.Add(-1); remaining > 0 {\n\t\treturn\n\t}'),
+ ('C09','equiv-defer-closure',A+'envelope.go','\tdefer drk.Close()\n','\tdefer func() { drk.Close() }()\n'),
+ ('C09','equiv-sk-close-reordered',A+'envelope.go','\tswitch success, err2 := e.tryStoreSystemKey(ctx, sk); {\n\tcase success:\n\t\t// New key saved successfully, return it.\n\t\treturn sk, nil\n\tdefault:\n\t\t// it\'s no good to us now. throw it away\n\t\tsk.Close()\n\n\t\tif err2 != nil {\n\t\t\treturn nil, err2\n\t\t}\n\t}','\tswitch success, err2 := e.tryStoreSystemKey(ctx, sk); {\n\tcase success:\n\t\t// New key saved successfully, return it.\n\t\treturn sk, nil\n\tcase err2 != nil:\n\t\tsk.Close()\n\n\t\treturn nil, err2\n\tdefault:\n\t\t// it\'s no good to us now. throw it away\n\t\tsk.Close()\n\t}'),
+ ('C10','equiv-explicit-wipes',A+'envelope.go','\t\tdefer internal.MemClr(rawDrk)\n\n\t\treturn crypto.Decrypt(drr.Data, rawDrk)','\t\tout, decErr := crypto.Decrypt(drr.Data, rawDrk)\n\n\t\tinternal.MemClr(rawDrk)\n\n\t\treturn out, decErr'),
+ ('C10','equiv-wipe-before-errcheck-v2',A+'plugins/aws-v2/kms/kms.go','\t\tkeyBytes, err := a.crypto.Decrypt(kekEn.EncryptedKey, resp.Plaintext)\n\n\t\t// the data key is no longer needed, wipe it\n\t\tinternal.MemClr(resp.Plaintext)\n\n\t\tif err != nil {\n\t\t\tlog.Debugf("error crypto decrypt: %s\\n", err)\n\t\t\tcontinue\n\t\t}','\t\tkeyBytes, err := a.crypto.Decrypt(kekEn.EncryptedKey, resp.Plaintext)\n\t\tif err != nil {\n\t\t\tinternal.MemClr(resp.Plaintext)\n\t\t\tlog.Debugf("error crypto decrypt: %s\\n", err)\n\n\t\t\tcontinue\n\t\t}\n\n\t\t// the data key is no longer needed, wipe it\n\t\tinternal.MemClr(resp.Plaintext)'),
+ ('C11','equiv-close-loop-shape','go/securememory/protectedmemory/secret.go','\tfor {\n\t\tif s.closed {\n\t\t\treturn nil\n\t\t}\n\n\t\tif s.accessCounter == 0 {\n\t\t\treturn s.close()\n\t\t}\n\n\t\ts.c.Wait()\n\t}','\tfor !s.closed {\n\t\tif s.accessCounter == 0 {\n\t\t\treturn s.close()\n\t\t}\n\n\t\ts.c.Wait()\n\t}\n\n\treturn nil'),
+ ('C12','equiv-clean-in-createrandom','go/securememory/protectedmemory/secret.go','\t\tif err2 := f.memcall().Unlock(s.bytes); err2 != nil {\n\t\t\terr = errors.Wrap(err, err2.Error())\n\t\t}\n\n\t\tif err2 := f.memcall().Free(s.bytes); err2 != nil {\n\t\t\terr = errors.Wrap(err, err2.Error())\n\t\t}\n\n\t\treturn nil, err','\t\tif err2 := memcall.Clean(f.memcall(), s.bytes); err2 != nil {\n\t\t\terr = errors.Wrap(err, err2.Error())\n\t\t}\n\n\t\treturn nil, err'),
+ ('C13','equiv-memory-exists-local',A+'pkg/persistence/memory.go','\tif _, ok := s.Envelopes[keyID][created]; ok {\n\t\treturn false, nil\n\t}','\t_, exists := s.Envelopes[keyID][created]\n\tif exists {\n\t\treturn false, nil\n\t}'),
+ ('C13','equiv-condition-via-local',A+'plugins/aws-v2/dynamodb/metastore/metastore.go','\t_, err = d.svc.PutItem(ctx, &dynamodb.PutItemInput{','\tinput := &dynamodb.PutItemInput{'),
+ ('C15','equiv-set-full-geq',A+'pkg/cache/cache.go','\tif c.size == c.policy.Capacity() {\n\t\tc.evict()\n\t}','\tif c.size >= c.policy.Capacity() {\n\t\tc.evict()\n\t}'),
+ ('C15','equiv-delete-reordered',A+'pkg/cache/cache.go','\tdelete(c.byKey, key)\n\n\tc.size--\n\n\tc.policy.Remove(item)\n\n\treturn true','\tc.policy.Remove(item)\n\n\tdelete(c.byKey, key)\n\n\tc.size--\n\n\treturn true'),
+ ('C16','equiv-remove-defer-unlock',A+'session_cache.go','\ts.mu.Lock()\n\n\tfor s.accessCounter > 0 {\n\t\ts.cond.Wait()\n\t}\n\n\ts.Encryption.Close()\n\n\ts.mu.Unlock()','\ts.mu.Lock()\n\tdefer s.mu.Unlock()\n\n\tfor s.accessCounter > 0 {\n\t\ts.cond.Wait()\n\t}\n\n\ts.Encryption.Close()'),
+ ('C17','equiv-v2-decrypt-ok-local',A+'plugins/aws-v2/kms/kms.go','\t\tkek, ok := keks[c.Region]\n\t\tif !ok {\n\t\t\tlog.Debugf("no KEK found for region: %s\\n", c.Region)\n\t\t\tcontinue\n\t\t}','\t\tkek, found := keks[c.Region]\n\t\tif !found {\n\t\t\tlog.Debugf("no KEK found for region: %s\\n", c.Region)\n\n\t\t\tcontinue\n\t\t}'),
+ ('C19','equiv-handler-local','server/go/pkg/server/server.go','\tcase *pb.SessionRequest_Encrypt:\n\t\tif s.handler == nil {\n\t\t\treturn UninitializedSessionResponse\n\t\t}\n\n\t\treturn s.handler.Encrypt(ctx, in)','\tcase *pb.SessionRequest_Encrypt:\n\t\tif s.handler != nil {\n\t\t\treturn s.handler.Encrypt(ctx, in)\n\t\t}\n\n\t\treturn UninitializedSessionResponse'),
+ ('C20','equiv-getorload-shape',A+'key_cache.go','\tif k, ok := c.getFresh(id); ok {\n\t\treturn tracked(k), nil\n\t}\n\n\tk, err := c.load(id, loader)\n\tif err != nil {\n\t\treturn nil, err\n\t}\n\n\treturn tracked(k), nil','\tk, fresh := c.getFresh(id)\n\tif !fresh {\n\t\tvar err error\n\n\t\tk, err = c.load(id, loader)\n\t\tif err != nil {\n\t\t\treturn nil, err\n\t\t}\n\t}\n\n\treturn tracked(k), nil'),
 ]
 
 def main():
